@@ -21,6 +21,8 @@ type Family struct {
 	Weight int
 	Gen    func(g *Gen) *Scn
 	Run    func(e *Env)
+	// Expand enumerates the fault positions of a generated scenario (fault enumeration); each result is one run.
+	Expand func(sc *Scn) []*Scn
 	// Shrink proposes smaller scenarios (generic shrinker is used when nil).
 	Shrink func(sc *Scn) []*Scn
 	// MaxSteps overrides the default step cap.
@@ -64,26 +66,26 @@ type Gen struct {
 	Prop string
 }
 
-func (g *Gen) Intn(n int) int        { return g.R.Intn(n) }
-func (g *Gen) Bool(p float64) bool   { return g.R.Bool(p) }
-func (g *Gen) Range(lo, hi int) int  { return lo + g.R.Intn(hi-lo+1) }
+func (g *Gen) Intn(n int) int           { return g.R.Intn(n) }
+func (g *Gen) Bool(p float64) bool      { return g.R.Bool(p) }
+func (g *Gen) Range(lo, hi int) int     { return lo + g.R.Intn(hi-lo+1) }
 func (g *Gen) Pick(xs ...string) string { return xs[g.R.Intn(len(xs))] }
-func (g *Gen) PickInt(xs ...int) int { return xs[g.R.Intn(len(xs))] }
+func (g *Gen) PickInt(xs ...int) int    { return xs[g.R.Intn(len(xs))] }
 
 // RunResult is what one simulated run produced.
 type RunResult struct {
-	Viols     []Violation
-	Decisions []int
-	Stats     simrt.Stats
-	ILHash    uint64
-	LogHash   uint64
-	SimTime   time.Duration
-	Capped    bool
-	Deadlock  bool
-	Probes    map[string]int
-	Trace     []string
+	Viols      []Violation
+	Decisions  []int
+	Stats      simrt.Stats
+	ILHash     uint64
+	LogHash    uint64
+	SimTime    time.Duration
+	Capped     bool
+	Deadlock   bool
+	Probes     map[string]int
+	Trace      []string
 	HarnessErr string
-	Notes     []string
+	Notes      []string
 }
 
 func makeStrategy(s *SchedSpec) simrt.Strategy {
